@@ -39,7 +39,7 @@ def shards(tier):
 def draw(rng, mk):
     if mk in gen.SHIPPED:
         prm = gen.draw_params(rng, mk)
-    elif mk == "hm_order":
+    elif mk in ("hm_order", "hm_sig"):
         prm = gen.draw_params(rng, "hertz_para")
     elif mk == "hm_anc":
         prm = gen.draw_params(rng, "hertz_cone")
@@ -104,6 +104,16 @@ def one_case(rec, rng, cid, keys):
         return
     # -- same array object evaluated again after in-place edits (abscissa
     # reversed in place; the array returned before post-processed in place)
+    # -- the registered model evaluates the module's function with the
+    # parameters given by NAME (whatever the order of its arguments)
+    if mk not in ("hm_own", "hm_order"):
+        vals = {k: p[k].value for k in p}
+        Fd = md.module.model_func(delta=x.copy(), **vals)
+        Fw = Fd[::-1] if asc else Fd
+        rec.event("model output compared with the module's own function")
+        rec.check(np.array_equal(F, Fw), "model/not-the-modules-function",
+                  "model(params, x) differs from model_func(delta=x, "
+                  "**values by name)", case)
     Fkeep = F.copy()
     # -- a later evaluation (same length, other parameters) must not write
     # into the array handed out before
